@@ -145,7 +145,34 @@ func runOne(c *caseIn, sdls map[string]string, perm []int, which string, shared 
 	return res
 }
 
+// customRoots: in every other set one service (never only the first of the list) calls its root operation types RootQ /
+// RootM / RootS.  The abstract schema - and with it everything the contract expects - is the same: the names of the
+// root operation types are the service's private matter; the merged schema and the routing table speak of Query,
+// Mutation and Subscription.
+func customRoots(c *caseIn) {
+	h := c.ID
+	if h < 0 {
+		h = -h
+	}
+	if len(c.Svcs) == 0 || h%2 == 1 {
+		return
+	}
+	s := c.Svcs[(h/2)%len(c.Svcs)]
+	for _, t := range []string{"RootQ", "RootM", "RootS"} {
+		for _, x := range c.Svcs {
+			if _, used := x.Types[t]; used {
+				return
+			}
+		}
+	}
+	if len(s.RootNames) == 0 {
+		s.RootNames = map[string]string{"Query": "RootQ", "Mutation": "RootM", "Subscription": "RootS"}
+		c.Tags = append(c.Tags, "custom-root-names")
+	}
+}
+
 func runCase(enc *json.Encoder, c *caseIn, mergers []string) {
+	customRoots(c)
 	sdls, err := loadAll(c)
 	if err != nil {
 		enc.Encode(map[string]interface{}{"ev": "HarnessError", "what": err.Error()})
@@ -171,6 +198,15 @@ func runCase(enc *json.Encoder, c *caseIn, mergers []string) {
 			if m == "extend-again" {
 				enc.Encode(runOne(c, sdls, ps[0], m, shared))
 			}
+		}
+	}
+	// ... and every service on its own, from the same objects: a gateway whose service list shrank.  (A new Set: the
+	// contract's expectation is computed from what the service declared, not from what earlier merges left in the object.)
+	if len(c.Svcs) > 1 && len(shared) > 0 {
+		for _, sv := range c.Svcs {
+			sub := &caseIn{ID: c.ID, Svcs: []*mschema.Schema{sv}, Tags: append(append([]string{}, c.Tags...), "alone-after-the-set")}
+			enc.Encode(map[string]interface{}{"ev": "Set", "id": sub.ID, "svcs": sub.Svcs, "tags": sub.Tags})
+			enc.Encode(runOne(sub, sdls, []int{1}, "extend-again", shared))
 		}
 	}
 }
